@@ -29,7 +29,7 @@ import (
 // handler); the oracle reads the stamped event log, never the clock.
 
 type c17Op struct {
-	Kind   string `json:"kind"`           // pkt | partial | eof
+	Kind   string `json:"kind"`           // pkt | partial | eof | reset | badkey-trickle (Pieces: octets of the next request in the same read, Bytes: octets dribbled afterwards)
 	Pieces int    `json:"pieces"`         // pkt: number of reads the packet is spread over (0 = one per byte)
 	Bytes  int    `json:"bytes"`          // partial: how many bytes of a packet arrive before the stall
 	Hold   bool   `json:"hold"`           // pkt: the handler blocks until the harness releases it
@@ -77,13 +77,16 @@ func genC17(t *rapid.T) c17Case {
 		var cc c17Conn
 		nops := rapid.IntRange(0, 4).Draw(t, "nops")
 		for j := 0; j < nops; j++ {
-			op := c17Op{Kind: rapid.SampledFrom([]string{"pkt", "pkt", "pkt", "partial", "eof", "reset"}).Draw(t, "kind")}
+			op := c17Op{Kind: rapid.SampledFrom([]string{"pkt", "pkt", "pkt", "partial", "eof", "reset", "badkey-trickle"}).Draw(t, "kind")}
 			switch op.Kind {
 			case "pkt":
 				op.Pieces = rapid.SampledFrom([]int{1, 1, 2, 3, 0}).Draw(t, "pieces")
 				op.Next = rapid.IntRange(0, 2).Draw(t, "leaves_session_open") == 0
 			case "partial":
 				op.Bytes = rapid.IntRange(1, 19).Draw(t, "bytes")
+			case "badkey-trickle":
+				op.Bytes = rapid.IntRange(0, 6).Draw(t, "trickled")
+				op.Pieces = rapid.SampledFrom([]int{0, 0, 5, 12, 40}).Draw(t, "behind_it")
 			}
 			cc.Ops = append(cc.Ops, op)
 			if op.Kind != "pkt" {
@@ -346,6 +349,25 @@ scripts:
 					}
 					// not closed (yet): the teardown below orders everything before Serve's return
 					// and the log oracle decides
+				}
+			case "badkey-trickle":
+				// a request under the wrong key, with the beginning of the next request already behind it in
+				// the same read; then the client dribbles single octets.  The server answers the first and
+				// closes; if it goes on reading instead, the log oracle judges how it arms its deadlines
+				ev.Class("key-mismatch-with-more-behind-it-then-a-trickle")
+				wire := model.Frame(secret, model.Header{Version: 0xc0, Type: 1, Seq: 1, Session: 0x7100 + uint32(i)}, []byte{0xff, 0xff, 0xff, 0xff, 0xff, 0xff, 0xff, 0xff, 0xff})
+				next := model.Frame(secret, model.Header{Version: 0xc0, Type: 1, Seq: 1, Session: 0x7200 + uint32(i)}, consistentBody(1, 40, []byte{4}))
+				conn.Feed(append(append([]byte{}, wire...), next[:op.Pieces]...))
+				if !conn.AwaitQuiescentOrClosed(grace) {
+					undecided = fmt.Sprintf("connection %d neither quiescent nor closed after a key mismatch", i)
+					break scripts
+				}
+				for k := 0; k < op.Bytes && !conn.Closed(); k++ {
+					conn.Feed(next[op.Pieces+k : op.Pieces+k+1])
+					if !conn.AwaitQuiescentOrClosed(grace) {
+						undecided = fmt.Sprintf("connection %d wedged while draining", i)
+						break scripts
+					}
 				}
 			case "eof":
 				conn.FeedEOF()
